@@ -7,6 +7,8 @@
 #define CAP(s)     ((s)->m_data.base.m_capacity)
 #define DATA(s)    ((s)->m_data.base.m_data_ptr)
 #define AID(s)     ((s)->base.base.m_alloc.id)
+int __CPROVER_uninterpreted_soccc (int);
+#define SOCCC(id)  (__CPROVER_uninterpreted_soccc (id))   /* select_on_container_copy_construction: an uninterpreted function of the allocator identity */
 #ifdef CFG_N_ZERO
 #define STORAGE(s) ((Elem *) 0)
 #else
